@@ -33,7 +33,7 @@ CHECKS = {
              "places the pinch(es). Per path the negated running-minimum oracle is discharged at every output row AND at "
              "every mid-point between output rows (a missing closing breakpoint is visible only there), plus the load-profile clauses.",
         design_ref="5/C07",
-        note="2-6 rows complete over {-1,0,+1} slopes, +-1 slopes to 8 rows (thorough); unit slope magnitude (1/100 and 100 in the "
+        note="2-6 rows complete over {-1,0,+1} slopes, +-1 slopes to 8 rows (thorough); unit slope magnitude (1/128 and 128 in the "
              "thorough tier); distinct H values >= 1e-3 apart (tolerance band outside). " + ENGINE_NOTE,
         technique="solver-based path-exhaustive symbolic execution of the real code (z3, QF_LRA per path) against a running-minimum oracle",
     ),
